@@ -31,7 +31,7 @@ func VerifHarness_C17_CustomFunctionArgumentCountIsCheckedAtCompile() {
 }
 
 // C17: a variable is known by its name however the name is written - %x, %`x`, %'x', with the escapes of a string
-// literal decoded in the quoted form - and evaluates to exactly the supplied value; a name that was not supplied
+// literal decoded in both delimited forms - and evaluates to exactly the supplied value; a name that was not supplied
 // compiles and is an evaluation error.
 func VerifHarness_C17_CompiledVariableNames() {
 	supplied := system.Integer(verifrt.NondetInt32("value"))
@@ -39,7 +39,7 @@ func VerifHarness_C17_CompiledVariableNames() {
 	forms := []struct {
 		written string
 		name    string
-	}{{"x", "x"}, {"`x`", "x"}, {"'x'", "x"}, {"'\\u0078'", "x"}, {"'a b'", "a b"}, {"`a b`", "a b"}, {"y", "y"}, {"`y`", "y"}, {"'X'", "X"}}
+	}{{"x", "x"}, {"`x`", "x"}, {"'x'", "x"}, {"'\\u0078'", "x"}, {"'a b'", "a b"}, {"`a b`", "a b"}, {"`\\u0078`", "x"}, {"`a\\u0020b`", "a b"}, {"y", "y"}, {"`y`", "y"}, {"'X'", "X"}}
 	f := forms[verifrt.Choose("form", len(forms))]
 	res := (&FHIRPathVisitor{}).Visit(verifExternalConstant(f.written)).(*VisitResult)
 	verifrt.Assert(res.Error == nil && res.Result != nil, "variable-reference-compiles")
